@@ -10,7 +10,7 @@ From Coq Require Import List Bool Arith NArith.
 From TV Require Import Model.Engine Model.EngineToy Proofs.EngineMemo Proofs.EngineDirty Proofs.EngineHistory
   Proofs.EngineScribble Proofs.EngineToyProofs Proofs.EngineNoScribble
   Model.EngineLayouts Model.EngineLayoutsToy Proofs.EngineLayoutsPlain Proofs.EngineLayoutsMemo Proofs.EngineLayoutsHistory
-  Proofs.EngineLayoutsToy.
+  Proofs.EngineLayoutsToy Model.EngineReplay Proofs.EngineReplay.
 Import ListNotations.
 
 (* a memoised evaluation returns what the cache-free evaluation of the same skeleton returns, keeps every cache entry
@@ -252,6 +252,27 @@ Example C01_hypotheses_satisfiable :
   run_ok TS TIn TOut TLay t_mode t_in_eqb t_is_none 0%N 0%N t_algo' ex_tree ex_ops.
 Proof. split; [exact t_in_eqb_eq|]. split; [exact t_algo_WF|]. split; [exact t_algo_H1|exact ex_run_ok]. Qed.
 
+(* the TRACED memo the event-level correspondence runs (Model/EngineReplay.v: the same recursion returning, in addition, the
+   list of compute_cached_layout / compute_hidden_layout / set_unrounded_layout events the implementation's trace hook logs)
+   IS the memo of the theorems above: forgetting the events gives Engine.memo, for every instance of the engine *)
+Theorem C01_traced_memo_is_memo :
+  forall (S In Out Lay : Type) (mode : In -> RunMode) (in_eqb : In -> In -> bool) (is_none : S -> bool)
+         (hidden_out : Out) (zero_lay : Lay) (algo : S -> list S -> In -> Alg In Out Lay) fuel t i,
+    option_map fst (memo_tr S In Out Lay mode in_eqb is_none hidden_out zero_lay algo fuel t i)
+    = memo S In Out Lay mode in_eqb is_none hidden_out zero_lay algo fuel t i.
+Proof. intros. apply memo_traced_fst. Qed.
+
+(* and its log is bracketed by the Query / Return events of the node it was asked about; a hit logs nothing else and leaves
+   the tree alone *)
+Theorem C01_traced_memo_brackets :
+  forall (S In Out Lay : Type) (mode : In -> RunMode) (in_eqb : In -> In -> bool) (is_none : S -> bool)
+         (hidden_out : Out) (zero_lay : Lay) (algo : S -> list S -> In -> Alg In Out Lay) fuel t i o t' evs,
+    mode i <> PerformHiddenLayout ->
+    memo_tr S In Out Lay mode in_eqb is_none hidden_out zero_lay algo fuel t i = Some (o, t', evs) ->
+    exists hit mid, evs = EQuery S In (style_of S In Out Lay t) i hit :: mid ++ [EReturn S In (style_of S In Out Lay t)]
+                    /\ (hit = true -> mid = [] /\ t' = t).
+Proof. intros. eapply memo_traced_brackets; eauto. Qed.
+
 Print Assumptions C01_memo_sound.
 Print Assumptions C01_root_output_equals_fresh.
 Print Assumptions C01_fresh_inv.
@@ -264,3 +285,5 @@ Print Assumptions C01_plain_layouts_determined_by_skeleton.
 Print Assumptions C01_fresh_coh.
 Print Assumptions C01_layouts_refuted_when_hidden_children_are_sized.
 Print Assumptions C01_layouts_refuted_when_hidden_child_is_set_before_its_query.
+Print Assumptions C01_traced_memo_is_memo.
+Print Assumptions C01_traced_memo_brackets.
